@@ -11,11 +11,18 @@ man={
  "version":1,
  "setup_cmd":"cd /verif/engine && GOFLAGS=-mod=mod GOPROXY=off GOSUMDB=off GOTOOLCHAIN=local CGO_ENABLED=0 go build -o /verif/bin/gosymex ./cmd/gosymex",
  "hooks":{"guard":"verif","enable":"none needed: harnesses, the harness runtime and library models are injected with go/packages and `go test -overlay` overlays; no file under /repo is written","baseline_off_cmd":"export GOTOOLCHAIN=local GOFLAGS=-mod=mod; for m in . collector/processor/concurrentbatchprocessor collector/processor/obfuscationprocessor; do (cd /repo/$m && go test -json -vet=off -count=1 -timeout 25m ./...); done","source_commits":[],"add_only":True},
- "engines":[{"name":"gosymex","path":"/verif/engine","serves_properties":claimed,"kind_free_text":"own Go-SSA symbolic executor (go/ssa -> SMT-LIB2 bit-vectors / IEEE doubles, z3 over a pipe; z3-new and cvc5 diffed in the thorough tier), stateless DFS over decision vectors, counterexamples replayed against the compiled code"}],
+ "engines":[{"name":"gosymex","path":"/verif/engine","serves_properties":claimed,"kind_free_text":"own Go-SSA symbolic executor (go/ssa -> SMT-LIB2 bit-vectors / IEEE doubles; z3 over a pipe, cvc5 for the floating-point obligations and, with --solve-bv-as-int, for the 64-bit accounting obligations; the other solvers are diffed against the primary in the thorough tier), stateless DFS over decision vectors, counterexamples replayed against the compiled code"}],
  "checks":[],
  "notes":meta.get("_notes","see DESIGN.md; exit 2 + INCONCLUSIVE line = machinery problem (never a VIOLATION line)"),
  "not_applicable":[]
 }
+def outside_of(pid):
+    seen=[]
+    for o in checks[pid]['obligations']:
+        for x in o.get('outside',[]):
+            if x not in seen: seen.append(x)
+    t='; '.join(seen)
+    return t if len(t)<1800 else t[:1800]+' …'
 for p in props:
     pid=p['id']
     m=meta.get(pid,{})
@@ -29,8 +36,8 @@ for p in props:
           "replay_cmd_template":"/verif/bin/gosymex replay {path}",
           "engine":"gosymex",
           "level_claimed":{"category":"model_checking","text":m.get("text","bounded symbolic execution of the real function bodies (go/ssa) with an SMT solver deciding each assertion for all inputs within the stated bounds; obligations: "+", ".join(obl)),"design_ref":"DESIGN.md §4 "+pid},
-          "level_note":m.get("note","trusted: go/ssa, engine semantics (validated against the compiled code on sampled paths each run), z3, the library contracts listed in the evidence file; bounds and clauses outside the claim are listed in the evidence file and DESIGN.md §4/§6"),
-          "technique":"SMT-based bounded symbolic execution of the Go SSA of the real code (own engine gosymex + z3), counterexamples replayed natively"
+          "level_note":m.get("note","trusted: go/ssa, engine semantics (validated against the compiled code on sampled paths each run), the solvers, the library contracts listed in the evidence file. Outside the claim: "+outside_of(pid)+" (bounds per obligation: evidence file; DESIGN.md §0.3/§6)"),
+          "technique":"SMT-based bounded symbolic execution of the Go SSA of the real code (own engine gosymex; z3 / cvc5 decide every branch and assertion for all values within the stated bounds), counterexamples replayed against the compiled code"
         })
     else:
         man["not_applicable"].append({"property_id":pid,"reason":m.get("na","check under construction in this session (engine stage not reached yet); not claimed until it runs clean on the unchanged tree")})
